@@ -468,6 +468,9 @@ func runC09(tier string, seed int64) *Outcome {
 		rr2.Idx = len(jobs) + 2
 		o.Results = append(o.Results, rr2)
 	}
+	rr3 := readerRace(filepath.Join(root, "linked"), seed+2, tier, "", true)
+	rr3.Idx = len(jobs) + 4
+	o.Results = append(o.Results, rr3)
 	// sequences of small edits on one store instance
 	sf := saveFidelity(root, seed, tier)
 	sf.Idx = len(jobs) + 1
@@ -488,7 +491,7 @@ func runC09(tier string, seed int64) *Outcome {
 
 // readerRace: one writer saving generations 1..N, 4 readers looping over raw reads and Load; every read must be one
 // complete generation and generations seen by one reader never go backwards
-func readerRace(root string, seed int64, tier string, tmpdir string) *CaseResult {
+func readerRace(root string, seed int64, tier string, tmpdir string, linked ...bool) *CaseResult {
 	res := &CaseResult{}
 	if tmpdir != "" {
 		old, had := os.LookupEnv("TMPDIR")
@@ -502,6 +505,14 @@ func readerRace(root string, seed int64, tier string, tmpdir string) *CaseResult
 		}()
 	}
 	dir := filepath.Join(root, "race")
+	isLinked := len(linked) > 0 && linked[0]
+	if isLinked {
+		// the data file the store finds is a symbolic link (an operator linked it to a file on another volume; the target
+		// does not exist yet): whatever the store does with the link, readers see complete snapshots only
+		_ = os.MkdirAll(dir, 0o755)
+		_ = os.MkdirAll(filepath.Join(root, "race-target"), 0o755)
+		_ = os.Symlink(filepath.Join(root, "race-target", "data-elsewhere.json"), filepath.Join(dir, "data.json"))
+	}
 	st, _ := store.NewJSONDataStore(dir)
 	n := 400
 	if tier == "thorough" {
@@ -587,7 +598,7 @@ func readerRace(root string, seed int64, tier string, tmpdir string) *CaseResult
 	close(stop)
 	wg.Wait()
 	res.Evaluations = reads
-	res.Situations = []string{fmt.Sprintf("reader-race distinctGenerationsSeen>=%d tmpdirOnOtherFileSystem=%v", min(len(distinct), 50)/10*10, tmpdir != "")}
+	res.Situations = []string{fmt.Sprintf("reader-race distinctGenerationsSeen>=%d tmpdirOnOtherFileSystem=%v dataFileStartsAsSymbolicLink=%v", min(len(distinct), 50)/10*10, tmpdir != "", isLinked)}
 	res.Extra = map[string]int{"race_reads": reads, "race_generations_seen": len(distinct)}
 	if reads < 100 || len(distinct) < 5 {
 		res.Inconclusive = fmt.Sprintf("reader race observed too little: %d reads, %d generations", reads, len(distinct))
